@@ -32,10 +32,12 @@ PYOP = {"add": lambda a, b: a + b, "sub": lambda a, b: a - b, "mul": lambda a, b
 LAB = {
     "x": {"inc": ("i", [10, 20, 30]), "dec": ("i", [30, 20, 10]), "ovl": ("i", [20, 30, 40]), "nest": ("i", [10, 20]),
           "disj": ("i", [40, 50]), "shuf": ("i", [30, 10, 20]), "flt": ("f", [10.0, 20.0, 30.0]), "fovl": ("f", [20.0, 30.5]),
-          "one": ("i", [20])},
+          "one": ("i", [20]), "empty": ("i", [])},
     "y": {"inc": ("O", ["a", "b"]), "dec": ("O", ["b", "a"]), "ovl": ("O", ["b", "c"]), "shuf": ("O", ["c", "a", "b"])},
     "z": {"inc": ("f", [0.5, 1.5]), "dec": ("f", [1.5, 0.5]), "ovl": ("f", [1.5, 2.5])},
     "t": {"inc": ("i", [1, 2]), "dec": ("i", [2, 1])},
+    # a dimension that happens to be called like a metadata entry the library looks at before operating
+    "grid_mapping": {"inc": ("i", [1, 2, 3]), "shuf": ("i", [3, 1, 2, 4])},
 }
 
 
@@ -52,8 +54,8 @@ def pool(tier):
         for d, v in zip(dims, variants):
             k, l = LAB[d][v]
             kinds.append(k); labels.append(l)
-        var = D.VARIANTS[len(P) % len(D.VARIANTS)] if dims else "fresh"
         cells = int(np.prod([len(l) for l in labels])) if labels else 1
+        var = D.VARIANTS[len(P) % len(D.VARIANTS)] if dims and cells else "fresh"
         vk = "i" if (len(P) % 3 == 0 and cells <= 9) else "f"
         P.append(D.spec(dims, labels, kinds, vk=vk, base=len(P) + 2, var=var, enc="small"))
 
@@ -88,6 +90,9 @@ def pool(tier):
             vs = {"x": "shuf", "y": "dec", "z": "inc", "t": "dec"}
             add(list(perm), [vs[d] for d in perm])
         add(["t", "x"], ["inc", "ovl"]); add(["y", "t"], ["shuf", "inc"])
+    # (appended last, so that the positions of everything above stay what they were)
+    add(["x"], ["empty"]); add(["x", "y"], ["empty", "inc"]); add(["y", "x"], ["shuf", "empty"])
+    add(["grid_mapping"], ["inc"]); add(["grid_mapping"], ["shuf"])
     return P
 
 
@@ -118,6 +123,9 @@ def cases(sh, tier):
         yield {"a": a, "op": op, "form": "as", "s": 2.5, "st": "np"}
         yield {"a": a, "op": op, "form": "sa", "s": 2.5, "st": "np"}
         yield {"a": a, "op": op, "form": "sa", "s": 2, "st": "np"}
+        if a["vk"] == "f":      # single-precision values with a Python scalar: "the NumPy result on .values" stays single precision
+            yield {"a": dict(a, vk="f4"), "op": op, "form": "as", "s": 2.5}
+            yield {"a": dict(a, vk="f4"), "op": op, "form": "sa", "s": 2.5}
         yield {"a": a, "op": op, "form": "an"}
     # the two values for which the power is defined whatever the other operand is: base 1 (1 ** nan == 1) and exponent 0 (nan ** 0 == 1).
     # At a coordinate that only ONE operand has, the result must still be NaN (the other operand has no value there)
